@@ -91,6 +91,15 @@ CHECKS = {
     note='Trusted: clang lowering (validated per run), irsym, z3, log as uninterpreted function, normal_distribution::operator() stubbed as mean+stddev*Z (Z arbitrary real). The removal loop of the solver is covered by C08.',
     technique='symbolic execution of LLVM IR + z3 (LRA/NRA with uninterpreted log)',
     design='3/C04'),
+ 'C18': dict(
+    level='other',
+    text=('The real parameter_reader (read_numerical_parameters, read_biomechanical_parameters, read_cell_type_parameters, read_face_type_parameters, get_string_value, lower_string, std::stod/stoi wrappers) runs from the LLVM IR '
+          'on files whose structure is concrete (1-3 cell types x 1-3 face types quick, up to 4 x 6 thorough; each single omitted tag or section; INF/inf/Inf) and whose numeric contents are symbolic; tinyxml2 navigation and strtod/strtol '
+          'are an environment table. z3 proves per path: accept => every documented constraint and every field equals the symbol of its own tag (order, counts, INF -> +infinity); reject of a complete file => a documented constraint is violated; '
+          'an incomplete file has no accept path. Failed obligations are replayed on real XML files through the native reader (real tinyxml2, shuffled tag order). "Values govern the run" is not covered.'),
+    note='Trusted: clang lowering (validated per run), irsym, the environment table (validated per run against real files), z3. Bounds and the reading of "documented sign constraints" are in the evidence.',
+    technique='symbolic execution of LLVM IR with the XML/strtod layer as environment table; z3 (linear real/integer arithmetic); native replay on generated XML files',
+    design='3/C18'),
  'C19': dict(
     level='other',
     text=('Numbering law only: the real solver::save_mesh and the integrator\'s time advance run from the LLVM IR over k iterations with symbolic dt and S. Exact reals (z3 with to_int): every feasible numbering sequence '
